@@ -15,6 +15,14 @@
 (*   DeleteContext(path)                    DMake, DEmpty, DWalk, DDel     *)
 (*   format_update_with(path, value, ctx)   WFormat, WUpdate               *)
 (*                                                                         *)
+(* The updating calls are elements: UpdateContext / DeleteContext objects  *)
+(* (and format_update_with / SetContext with fixed key and value) are built *)
+(* once and then applied to every value of a flow (NextValue).  elem is    *)
+(* the configuration the element stores; it is what the actions read.  An  *)
+(* element is stateless: no action changes elem or the constructor         *)
+(* arguments call (ElementStateless), so every value's outcome is a        *)
+(* function of (configuration, value) only (FlowIsFunction).               *)
+(*                                                                         *)
 (* The declarative side is CtxOpsRef.tla (Outcomes written from the        *)
 (* documentation with Has/Get/Put/Del/UpdRec) and the properties below:    *)
 (* Frame (nothing unrelated to the target changes), target set to the      *)
@@ -26,7 +34,8 @@ EXTENDS CtxOpsRef, TLC, Json
 
 CONSTANTS KeyOrder,   \* the key alphabet as a sequence (gives the sorted order of to_string)
           Ctxs,       \* contexts explored
-          Calls       \* call descriptors explored
+          Calls,      \* call descriptors explored
+          Flows       \* flows (non-empty sequences of contexts) an element is applied to, value by value
 
 K == {KeyOrder[j] : j \in DOMAIN KeyOrder}
 K1 == KeyOrder[1]
@@ -52,15 +61,21 @@ CtxT2 == NarrowOver(LeavesT, CtxT1)
 CtxT3 == NarrowOver(LeavesQ, CtxQ2)            \* depth <= 3
 OneCtx == {Empty}
 
-VARIABLES call, ctx0, ctx2,    \* the call; the context as passed; second context (to_string)
+VARIABLES call,                \* the call: constructor / function arguments as the caller holds them
+          elem,                \* the configuration stored in the element built from them
+          flow0, results,      \* the flow of contexts; [out, post] of the values already processed
+          ctx0, ctx2,          \* the context of the current value as passed; second context (to_string)
           ctx,                 \* the context now
           pc, out,             \* control; outcome
           ptr,                 \* keys walked so far
           upd                  \* resolved update value
-vars == <<call, ctx0, ctx2, ctx, pc, out, ptr, upd>>
+vars == <<call, elem, flow0, results, ctx0, ctx2, ctx, pc, out, ptr, upd>>
 
+SingleFlows == {<<c>> : c \in Ctxs}
 Init == /\ call \in Calls
-        /\ ctx0 \in Ctxs
+        /\ elem = call
+        /\ flow0 \in Flows /\ results = <<>>
+        /\ ctx0 = flow0[1]
         /\ ctx2 \in IF call.op = "tostr" THEN Ctxs ELSE {Empty}
         /\ ctx = ctx0 /\ pc = "start" /\ out = Ok(NoVal) /\ ptr = <<>> /\ upd = NoVal
 
@@ -76,13 +91,13 @@ GWalk == /\ pc = "start" /\ call.op = "get" /\ Len(ptr) + 1 < Len(call.path)
               IF k \in Keys(d) /\ IsD(d.m[k])
                 THEN ptr' = Append(ptr, k) /\ UNCHANGED <<pc, out>>
               ELSE Return(Missing) /\ ptr' = ptr
-         /\ UNCHANGED <<call, ctx0, ctx2, ctx, upd>>
+         /\ UNCHANGED <<call, elem, flow0, results, ctx0, ctx2, ctx, upd>>
 GLast == /\ pc = "start" /\ call.op = "get" /\ Len(ptr) + 1 >= Len(call.path)
          /\ LET d == Get(ctx, ptr) IN
               IF call.path = <<>> THEN Return(Ok(ctx))
               ELSE IF Last(call.path) \in Keys(d) THEN Return(Ok(d.m[Last(call.path)]))
               ELSE Return(Missing)
-         /\ UNCHANGED <<call, ctx0, ctx2, ctx, ptr, upd>>
+         /\ UNCHANGED <<call, elem, flow0, results, ctx0, ctx2, ctx, ptr, upd>>
 
 (***************************************************************************)
 (* contains(d, "k1.k2...kn"), n >= 1                                       *)
@@ -92,16 +107,16 @@ CWalk == /\ pc = "start" /\ call.op = "contains" /\ Len(ptr) + 1 < Len(call.path
               IF IsD(d) /\ k \in Keys(d)
                 THEN ptr' = Append(ptr, k) /\ UNCHANGED <<pc, out>>
               ELSE Return(Ok(FALSE)) /\ ptr' = ptr
-         /\ UNCHANGED <<call, ctx0, ctx2, ctx, upd>>
+         /\ UNCHANGED <<call, elem, flow0, results, ctx0, ctx2, ctx, upd>>
 CLast == /\ pc = "start" /\ call.op = "contains" /\ Len(ptr) + 1 = Len(call.path)
          /\ LET d == Get(ctx, ptr)  k == Last(call.path) IN
               IF IsD(d) THEN Return(Ok(k \in Keys(d)))
               ELSE Return(Ok(d.s = k))
-         /\ UNCHANGED <<call, ctx0, ctx2, ctx, ptr, upd>>
+         /\ UNCHANGED <<call, elem, flow0, results, ctx0, ctx2, ctx, ptr, upd>>
 
 S2D == /\ pc = "start" /\ call.op = "s2d"
        /\ Return(S2DOutcome(call.path))
-       /\ UNCHANGED <<call, ctx0, ctx2, ctx, ptr, upd>>
+       /\ UNCHANGED <<call, elem, flow0, results, ctx0, ctx2, ctx, ptr, upd>>
 
 (***************************************************************************)
 (* format_context(template)(ctx): the template is checked once, the fields *)
@@ -111,15 +126,15 @@ FParse == /\ pc = "start" /\ call.op = "format"
           /\ IF call.uk = "bad" THEN Return(Raise("LenaValueError"))
              ELSE IF call.uk = "simple" THEN Return(Raise("LenaTypeError"))
              ELSE pc' = "parsed" /\ out' = out
-          /\ UNCHANGED <<call, ctx0, ctx2, ctx, ptr, upd>>
+          /\ UNCHANGED <<call, elem, flow0, results, ctx0, ctx2, ctx, ptr, upd>>
 FRender == /\ pc = "parsed" /\ call.op = "format"
            /\ IF AllPresent(ctx, call.tpl) THEN Return(Ok(Render(ctx, call.tpl)))
               ELSE Return(Raise("LenaKeyError"))
-           /\ UNCHANGED <<call, ctx0, ctx2, ctx, ptr, upd>>
+           /\ UNCHANGED <<call, elem, flow0, results, ctx0, ctx2, ctx, ptr, upd>>
 
 TStr == /\ pc = "start" /\ call.op = "tostr"
         /\ Return([ok |-> TRUE, r |-> Canon(ctx, KeyOrder), r2 |-> Canon(ctx2, KeyOrder), same |-> ctx = ctx2])
-        /\ UNCHANGED <<call, ctx0, ctx2, ctx, ptr, upd>>
+        /\ UNCHANGED <<call, elem, flow0, results, ctx0, ctx2, ctx, ptr, upd>>
 
 (***************************************************************************)
 (* UpdateContext                                                           *)
@@ -127,74 +142,88 @@ TStr == /\ pc = "start" /\ call.op = "tostr"
 UMake == /\ pc = "start" /\ call.op = "update"
          /\ IF MakeExc(call) # "" THEN Return(Raise(MakeExc(call)))
             ELSE pc' = "built" /\ out' = out
-         /\ UNCHANGED <<call, ctx0, ctx2, ctx, ptr, upd>>
+         /\ UNCHANGED <<call, elem, flow0, results, ctx0, ctx2, ctx, ptr, upd>>
 \* the update value: simple value, deep copy of a context item, or rendered template;
 \* a missing item / field: default, skip (value returned unchanged), LenaKeyError, or "" in a template
 UResolve ==
   /\ pc = "built" /\ call.op = "update"
-  /\ IF call.uk = "simple" THEN upd' = call.uv /\ pc' = "walk" /\ out' = out
-     ELSE IF RefMode(call) THEN
-        LET p == call.tpl[1].p IN
+  /\ IF elem.uk = "simple" THEN upd' = elem.uv /\ pc' = "walk" /\ out' = out
+     ELSE IF RefMode(elem) THEN
+        LET p == elem.tpl[1].p IN
           IF Has(ctx, p) THEN upd' = Get(ctx, p) /\ pc' = "walk" /\ out' = out
-          ELSE IF call.o.def THEN upd' = DefaultVal /\ pc' = "walk" /\ out' = out
-          ELSE IF call.o.skip THEN Return(Ok(ctx)) /\ upd' = upd
+          ELSE IF elem.o.def THEN upd' = DefaultVal /\ pc' = "walk" /\ out' = out
+          ELSE IF elem.o.skip THEN Return(Ok(ctx)) /\ upd' = upd
           ELSE Return(Raise("LenaKeyError")) /\ upd' = upd
-     ELSE IF AllPresent(ctx, call.tpl) \/ ~(call.o.skip \/ call.o.raise)
+     ELSE IF AllPresent(ctx, elem.tpl) \/ ~(elem.o.skip \/ elem.o.raise)
         THEN upd' = Rendered /\ pc' = "walk" /\ out' = out
-     ELSE IF call.o.skip THEN Return(Ok(ctx)) /\ upd' = upd
+     ELSE IF elem.o.skip THEN Return(Ok(ctx)) /\ upd' = upd
      ELSE Return(Raise("LenaKeyError")) /\ upd' = upd
-  /\ UNCHANGED <<call, ctx0, ctx2, ctx, ptr>>
+  /\ UNCHANGED <<call, elem, flow0, results, ctx0, ctx2, ctx, ptr>>
 \* for key in keys[:-1]: create / replace by {} what is not a dictionary
-UWalk == /\ pc = "walk" /\ call.op = "update" /\ Len(ptr) + 1 < Len(call.path)
-         /\ LET k == call.path[Len(ptr) + 1]  d == Get(ctx, ptr) IN
+UWalk == /\ pc = "walk" /\ call.op = "update" /\ Len(ptr) + 1 < Len(elem.path)
+         /\ LET k == elem.path[Len(ptr) + 1]  d == Get(ctx, ptr) IN
               /\ ctx' = IF k \in Keys(d) /\ IsD(d.m[k]) THEN ctx ELSE Put(ctx, Append(ptr, k), Empty)
               /\ ptr' = Append(ptr, k)
-         /\ UNCHANGED <<call, ctx0, ctx2, pc, out, upd>>
-USet == /\ pc = "walk" /\ call.op = "update" /\ Len(ptr) + 1 = Len(call.path)
-        /\ LET k == Last(call.path)  d == Get(ctx, ptr)
-               new == IF call.o.rec /\ IsD(upd) /\ k \in Keys(d)
+         /\ UNCHANGED <<call, elem, flow0, results, ctx0, ctx2, pc, out, upd>>
+USet == /\ pc = "walk" /\ call.op = "update" /\ Len(ptr) + 1 = Len(elem.path)
+        /\ LET k == Last(elem.path)  d == Get(ctx, ptr)
+               new == IF elem.o.rec /\ IsD(upd) /\ k \in Keys(d)
                         THEN UpdRec(IF IsD(d.m[k]) THEN d.m[k] ELSE Empty, upd)
                       ELSE upd
-           IN /\ ctx' = Put(ctx, call.path, new)
-              /\ Return(Ok(Put(ctx, call.path, new)))
-        /\ UNCHANGED <<call, ctx0, ctx2, ptr, upd>>
+           IN /\ ctx' = Put(ctx, elem.path, new)
+              /\ Return(Ok(Put(ctx, elem.path, new)))
+        /\ UNCHANGED <<call, elem, flow0, results, ctx0, ctx2, ptr, upd>>
 
 (***************************************************************************)
 (* DeleteContext                                                           *)
 (***************************************************************************)
 DMake == /\ pc = "start" /\ call.op = "delete"
-         /\ pc' = "dwalk" /\ UNCHANGED <<call, ctx0, ctx2, ctx, out, ptr, upd>>
-DEmpty == /\ pc = "dwalk" /\ call.op = "delete" /\ call.path = <<>>
-          /\ \E r \in DeleteOutcomes(call, ctx) : Return(r.out) /\ ctx' = r.post
-          /\ UNCHANGED <<call, ctx0, ctx2, ptr, upd>>
-DWalk == /\ pc = "dwalk" /\ call.op = "delete" /\ Len(ptr) + 1 < Len(call.path)
-         /\ LET k == call.path[Len(ptr) + 1]  d == Get(ctx, ptr) IN
+         /\ pc' = "dwalk" /\ UNCHANGED <<call, elem, flow0, results, ctx0, ctx2, ctx, out, ptr, upd>>
+DEmpty == /\ pc = "dwalk" /\ call.op = "delete" /\ elem.path = <<>>
+          /\ \E r \in DeleteOutcomes(elem, ctx) : Return(r.out) /\ ctx' = r.post
+          /\ UNCHANGED <<call, elem, flow0, results, ctx0, ctx2, ptr, upd>>
+DWalk == /\ pc = "dwalk" /\ call.op = "delete" /\ Len(ptr) + 1 < Len(elem.path)
+         /\ LET k == elem.path[Len(ptr) + 1]  d == Get(ctx, ptr) IN
               IF k \in Keys(d) /\ IsD(d.m[k])
                 THEN ptr' = Append(ptr, k) /\ UNCHANGED <<pc, out>>
               ELSE Return(Ok(ctx)) /\ ptr' = ptr          \* no such key: ignored
-         /\ UNCHANGED <<call, ctx0, ctx2, ctx, upd>>
-DDel == /\ pc = "dwalk" /\ call.op = "delete" /\ call.path # <<>> /\ Len(ptr) + 1 = Len(call.path)
-        /\ LET k == Last(call.path)  d == Get(ctx, ptr)
-               e == IF k \in Keys(d) THEN Del(ctx, call.path) ELSE ctx
+         /\ UNCHANGED <<call, elem, flow0, results, ctx0, ctx2, ctx, upd>>
+DDel == /\ pc = "dwalk" /\ call.op = "delete" /\ elem.path # <<>> /\ Len(ptr) + 1 = Len(elem.path)
+        /\ LET k == Last(elem.path)  d == Get(ctx, ptr)
+               e == IF k \in Keys(d) THEN Del(ctx, elem.path) ELSE ctx
            IN ctx' = e /\ Return(Ok(e))
-        /\ UNCHANGED <<call, ctx0, ctx2, ptr, upd>>
+        /\ UNCHANGED <<call, elem, flow0, results, ctx0, ctx2, ptr, upd>>
 
 (***************************************************************************)
 (* format_update_with(key, value, d)                                       *)
 (***************************************************************************)
 WFormat == /\ pc = "start" /\ call.op = "fuw"
-           /\ IF call.uk = "bad" THEN Return(Raise("LenaValueError")) /\ upd' = upd
-              ELSE IF call.uk = "str" /\ HasField(call.tpl) /\ ~AllPresent(ctx, call.tpl)
+           /\ IF elem.uk = "bad" THEN Return(Raise("LenaValueError")) /\ upd' = upd
+              ELSE IF elem.uk = "str" /\ HasField(elem.tpl) /\ ~AllPresent(ctx, elem.tpl)
                 THEN Return(Raise("LenaKeyError")) /\ upd' = upd
-              ELSE IF call.path = <<>> THEN Return(Raise("LenaValueError")) /\ upd' = upd
-              ELSE /\ upd' = IF call.uk = "simple" THEN call.uv ELSE Rendered
+              ELSE IF elem.path = <<>> THEN Return(Raise("LenaValueError")) /\ upd' = upd
+              ELSE /\ upd' = IF elem.uk = "simple" THEN elem.uv ELSE Rendered
                    /\ pc' = "wupd" /\ out' = out
-           /\ UNCHANGED <<call, ctx0, ctx2, ctx, ptr>>
+           /\ UNCHANGED <<call, elem, flow0, results, ctx0, ctx2, ctx, ptr>>
 WUpdate == /\ pc = "wupd" /\ call.op = "fuw"
-           /\ LET e == UpdRec(ctx, Nest(call.path, upd)) IN ctx' = e /\ Return(Ok(e))
-           /\ UNCHANGED <<call, ctx0, ctx2, ptr, upd>>
+           /\ LET e == UpdRec(ctx, Nest(elem.path, upd)) IN ctx' = e /\ Return(Ok(e))
+           /\ UNCHANGED <<call, elem, flow0, results, ctx0, ctx2, ptr, upd>>
 
-Next == \/ GWalk \/ GLast \/ CWalk \/ CLast \/ S2D \/ FParse \/ FRender \/ TStr
+(***************************************************************************)
+(* The same element is applied to the next value of the flow.              *)
+(***************************************************************************)
+IsElement == call.op \in {"update", "delete", "fuw"}
+NotBuilt == call.op = "update" /\ MakeExc(call) # ""        \* the constructor raised: there is no element
+Terminal == Done /\ (Len(results) + 1 = Len(flow0) \/ NotBuilt \/ ~IsElement)
+NextValue == /\ Done /\ IsElement /\ ~NotBuilt /\ Len(results) + 1 < Len(flow0)
+             /\ results' = Append(results, Res(out, ctx))
+             /\ ctx0' = flow0[Len(results) + 2] /\ ctx' = flow0[Len(results) + 2]
+             /\ pc' = CASE call.op = "update" -> "built" [] call.op = "delete" -> "dwalk" [] OTHER -> "start"
+             /\ out' = Ok(NoVal) /\ ptr' = <<>> /\ upd' = NoVal
+             /\ UNCHANGED <<call, elem, flow0, ctx2>>
+
+Next == \/ NextValue
+        \/ GWalk \/ GLast \/ CWalk \/ CLast \/ S2D \/ FParse \/ FRender \/ TStr
         \/ UMake \/ UResolve \/ UWalk \/ USet
         \/ DMake \/ DEmpty \/ DWalk \/ DDel
         \/ WFormat \/ WUpdate
@@ -258,6 +287,19 @@ FuwExact == Finished("fuw") /\ out.ok => Contained(Nest(call.path, upd), ctx)
 OnlyDocumentedExceptions ==
   Done /\ ~out.ok => /\ out.exc \in {"LenaKeyError", "LenaTypeError", "LenaValueError"}
                      /\ ctx = ctx0
+\* an element is stateless: applying it changes neither its configuration nor the arguments it was built from
+ElementStateless == [][elem' = elem /\ call' = call]_vars
+\* hence every value of the flow gets the outcome of a single call on that value
+OutcomesOf(c, d) == CASE c.op = "update" -> UpdateOutcomes(c, d, Rendered)
+                      [] c.op = "delete" -> DeleteOutcomes(c, d)
+                      [] c.op = "fuw" -> FuwOutcomes(c, d, Rendered)
+FlowIsFunction == Done /\ IsElement =>
+  /\ \A j \in DOMAIN results : results[j] \in OutcomesOf(call, flow0[j])
+  /\ Res(out, ctx) \in OutcomesOf(call, flow0[Len(results) + 1])
+  /\ ctx0 = flow0[Len(results) + 1]
+  \* equal values, equal results (where the documentation fixes the result)
+  /\ ~(call.op = "delete" /\ call.path = <<>>) =>
+        \A j \in DOMAIN results : flow0[j] = flow0[Len(results) + 1] => results[j] = Res(out, ctx)
 \* queries never change the context
 QueriesPure == [][call.op \in {"get", "contains", "s2d", "format", "tostr"} => ctx' = ctx]_vars
 
@@ -318,10 +360,24 @@ CallsDeep == {c \in CallsQuick : c.op # "tostr" /\ (c.op = "format" => Len(c.tpl
 CallsWide == {c \in QueryCalls(3, 1) : c.op # "tostr"} \cup DeleteCalls(Seqs(K, 1, 3))
              \cup UpdateCalls(Seqs(K, 1, 2)) \cup FuwCalls(Seqs(K, 1, 2))
 
+\* flows: an element over three values, equal and different ones
+FlowCtxs == {Empty, Dict([j \in {K1} |-> L0]), Dict([j \in {K1} |-> Dict([i \in {K2} |-> L0])]),
+             Dict([j \in {K1, K2} |-> IF j = K1 THEN Dict([i \in {K1, K2} |-> IF i = K1 THEN L0 ELSE LB]) ELSE L0]),
+             Dict([j \in {K1, K2} |-> IF j = K1 THEN LB ELSE Empty])}
+FlowsXYX == {<<x, y, x>> : x \in Ctxs, y \in Ctxs}
+FlowsAll3 == Ctxs \X Ctxs \X Ctxs
+CallsFlowQuick == UpdateCalls({<<K1>>, <<K1, K2>>, <<K2, K1>>})
+                  \cup DeleteCalls(PathsE(2) \cup {<<K1, K1, K2>>, <<K1, K2, K1>>})
+                  \cup FuwCalls({<<>>, <<K1>>, <<K1, K2>>})
+CallsFlowThorough == UpdateCalls(Seqs(K, 1, 2) \cup {<<K1, K2, K1>>})
+                     \cup DeleteCalls(PathsE(2) \cup Seqs(K, 3, 3)) \cup FuwCalls(Seqs(K, 0, 2))
+
 (***************************************************************************)
 (* Export (S2C): the call, the context, the outcome; rend = the tokens of  *)
 (* the rendered template (for "$rendered")                                 *)
 (***************************************************************************)
-Emit == Done => PrintT(ToJson([call |-> call, ctx |-> ctx0, ctx2 |-> ctx2, out |-> out, post |-> ctx,
-                               rend |-> Render(ctx0, call.tpl)]))
+Emit == Terminal => PrintT(ToJson([call |-> call, ctx |-> ctx0, ctx2 |-> ctx2, out |-> out, post |-> ctx,
+                                   rend |-> Render(ctx0, call.tpl),
+                                   flow |-> flow0, results |-> Append(results, Res(out, ctx)),
+                                   rends |-> [j \in DOMAIN flow0 |-> Render(flow0[j], call.tpl)]]))
 =============================================================================
